@@ -20,8 +20,8 @@ class Harness(Ctx):
         self.notes = []
 
     # ---- declaring arguments
-    def arr(self, name, ctype, cap, const=False, cap_c=None):
-        p = self.array(name, ctype, cap, const=const)
+    def arr(self, name, ctype, cap, const=False, cap_c=None, expr=None):
+        p = self.array(name, ctype, cap, const=const, expr=expr)
         if cap_c is not None:
             self.cap_c[name] = cap_c
         return p
